@@ -3,9 +3,9 @@
 # usage: tools/seed_regress.sh [P] [pattern]
 P=${1:-4}; PAT=${2:-C}
 cd "$(dirname "$0")/.."
-ls seeded | grep -E "^${PAT}" | grep -E "^C[0-9][0-9]-[a-n]$" | while read n; do
+ls seeded | grep -E "^${PAT}" | grep -E "^C[0-9][0-9]-[a-q]$" | while read n; do
   prop=${n%-*}; l=${n#*-}
   # "-" stands for "no suffix" (a trailing blank would make xargs -L join two lines)
-  case $l in a) r=1; s=-;; b) r=1; s=2;; c) r=2; s=-;; d) r=2; s=2;; e) r=2; s=3;; f) r=3; s=-;; g) r=3; s=2;; h) r=3; s=3;; i) r=4; s=-;; j) r=4; s=2;; k) r=4; s=3;; l) r=5; s=-;; m) r=5; s=2;; n) r=5; s=3;; esac
+  case $l in a) r=1; s=-;; b) r=1; s=2;; c) r=2; s=-;; d) r=2; s=2;; e) r=2; s=3;; f) r=3; s=-;; g) r=3; s=2;; h) r=3; s=3;; i) r=4; s=-;; j) r=4; s=2;; k) r=4; s=3;; l) r=5; s=-;; m) r=5; s=2;; n) r=5; s=3;; o) r=6; s=-;; p) r=6; s=2;; q) r=6; s=3;; esac
   echo "$r $prop $s"
-done | xargs -P $P -L 1 sh -c 's=$2; [ "$s" = "-" ] && s=""; SEED_STORED=1 SEED_ROUND=$0 python3 tools/seed_eval.py $1 $s > /tmp/seedreg_$1_$0_$2.log 2>&1; echo "done $1 round $0 $2"'
+done | xargs -P $P -L 1 sh -c 's=$2; [ "$s" = "-" ] && s=""; SEED_NOBASELINE=1 SEED_STORED=1 SEED_ROUND=$0 python3 tools/seed_eval.py $1 $s > /tmp/seedreg_$1_$0_$2.log 2>&1; echo "done $1 round $0 $2"'
